@@ -310,6 +310,13 @@ def _run(ctx):
             # incomplete residues: groups whose centre cannot be built from their own atoms must still move with the structure
             lines = pdbgen.truncate_sidechains(rnd, lines, rnd.randint(1, 2), types=rnd.choice([None, ("ASP", "GLU")]))
         inputs.append(("gen%d" % i, pdbgen.text(lines), False))
+    # a peptide plane parallel to a coordinate plane: a nitrogen and both its neighbours share one coordinate exactly
+    for i in range(2 if ctx.quick() else 10):
+        lines, ids = pdbgen.multichain(rnd, nchains=1, chains="ABC")
+        al = pdbgen.align_peptide_plane(rnd, lines)
+        if al is not None:
+            inputs.append(("plane-aligned%d" % i, pdbgen.text(al), False))
+            ctx.count("inputs with a peptide plane parallel to a coordinate plane")
     hbad, fbad, kbad = [], [], []
     hbad_known = 0
     for name, text, hetero in inputs:
